@@ -13,7 +13,7 @@ for id in $IDS; do
   if ! (cd $SCR && git init -q . 2>/dev/null; patch -p1 -s < $HERE/seeded/$id/patch.diff); then echo "MATRIX $id patch-failed"; continue; fi
   line="MATRIX $id"
   for P in $PROPS; do
-    out=$(cd $HERE && VERIF_REPO=$SCR VERIF_PAR=${VERIF_PAR:-8} ./check $P 2>/dev/null | tail -1)
+    out=$(cd $HERE && VERIF_REPO=$SCR VERIF_PAR=${VERIF_PAR:-8} VERIF_SCALE=${VERIF_SCALE:-0.4} ./check $P 2>/dev/null | tail -1)
     case "$out" in VIOLATION*) r=V;; OK*) r=ok;; INCONCLUSIVE*) r=inc;; *) r="?";; esac
     line="$line $P=$r"
   done
